@@ -122,7 +122,15 @@ pub fn check(c: &Case, obs: &mut Obs) -> Verdict {
         };
         if d != e {
             let mut o2 = Obs::default();
-            let why = tool::disposals_equivalent(d, e, &mut o2).err().unwrap_or_else(|| "not bit-identical (within tolerance)".into());
+            let why = match tool::disposals_equivalent(d, e, &mut o2) {
+                Err(w) => w,
+                Ok(()) => {
+                    // equal within the standard tolerance: "unchanged" for a tool that gets the
+                    // same figures along another arithmetic path
+                    obs.class("earlier_disposal_equal_within_tolerance_only");
+                    continue;
+                }
+            };
             return Verdict::fail(format!(
                 "disposal {} {} changed after appending transactions dated > {} + 30 days: {why}\n--- prefix ---\n{}\n--- continuation ---\n{}",
                 d.ticker,
@@ -143,7 +151,14 @@ pub fn check(c: &Case, obs: &mut Obs) -> Verdict {
                     return Verdict::fail(format!("tax year {} disappeared", y.period));
                 };
                 // dividends of that year cannot change either: S's dividends are dated later
-                if y != z {
+                let same_within_tolerance = y.disposals.len() == z.disposals.len()
+                    && tool::dec_money_close(y.total_gain, z.total_gain, obs)
+                    && tool::dec_money_close(y.total_loss, z.total_loss, obs)
+                    && tool::dec_money_close(y.net_gain, z.net_gain, obs)
+                    && tool::dec_money_close(y.dividend_income, z.dividend_income, obs)
+                    && tool::dec_money_close(y.dividend_tax_paid, z.dividend_tax_paid, obs)
+                    && y.exempt_amount == z.exempt_amount;
+                if y != z && !same_within_tolerance {
                     return Verdict::fail(format!(
                         "tax year {} (ended before the continuation began) changed: gain {} -> {}, loss {} -> {}, disposals {} -> {}",
                         y.period,
